@@ -14,5 +14,6 @@ PStep(s, e, id) == CASE e.op = "new" -> PNew(s, id)
                      [] e.op = "use" -> PUse(s, e.obj, id)
                      [] e.op = "copy" -> PCopy(s, e.obj, id)
                      [] e.op = "del" -> PDel(s, e.obj)
+                     [] e.op = "again" -> s               \* the final call repeated (digest() is idempotent): contributes nothing to the lineage
 Enabled(s, e) == IF e.op = "new" THEN TRUE ELSE (e.obj \in 1..Len(s.lin) /\ s.alive[e.obj])
 =============================================================================
